@@ -257,8 +257,9 @@ pub fn get_sub_entity_query(
     t: usize,
     is_unique_value: bool,
 ) -> String {
-    //used as a table alias: quoted, a field name can be a keyword of the SQL language
-    let field_name = &format!("\"{}\"", field_name);
+    //used as a table alias: quoted, a field name can be a keyword of the SQL language,
+    //and made unique by the nesting depth, the same field name can be nested in itself
+    let field_name = &format!("\"{}${}\"", field_name, t);
     let mut q = String::new();
     tab(&mut q, t);
     q.push_str("SELECT \n");
@@ -317,8 +318,9 @@ pub fn get_sub_system_entity_query(
     t: usize,
     is_unique_value: bool,
 ) -> String {
-    //used as a table alias: quoted, a field name can be a keyword of the SQL language
-    let field_name = &format!("\"{}\"", field_name);
+    //used as a table alias: quoted, a field name can be a keyword of the SQL language,
+    //and made unique by the nesting depth, the same field name can be nested in itself
+    let field_name = &format!("\"{}${}\"", field_name, t);
     let mut q = String::new();
     tab(&mut q, t);
     q.push_str("SELECT \n");
